@@ -372,6 +372,10 @@ func (l *lexer) acceptString() bool {
 			} else if isStringDelim(r) {
 				term = true
 				l.backup()
+			} else if r == '/' && (strings.HasPrefix(l.input[l.pos:], "/") || strings.HasPrefix(l.input[l.pos:], "*")) && l.pos-1 > l.start {
+				// RFC 7950 Sec 6.1.3: an unquoted string ends where a comment begins
+				term = true
+				l.backup()
 			}
 		} else {
 			if r == eof {
